@@ -42,14 +42,14 @@ Definition diag_case (c : string * string) : string :=
 
 
 def run(ctx):
-    C.build_harness()
+    C.build_harness("dl-c13")
     proofs_ok = C.proof_gate(ctx)
 
     n = 1500 if ctx.tier == "quick" else 20000
-    args = ["c13", "strings", "--seed", str(ctx.seed), "--n", str(n)]
+    args = ["strings", "--seed", str(ctx.seed), "--n", str(n)]
     if ctx.tier != "quick":
         args.append("--exhaustive2")
-    out = C.harness(args)
+    out = C.harness("dl-c13", args)
     cases = []
     seen = set()
     nontrivial = 0
